@@ -129,6 +129,27 @@ def check_decorations(prog, rep):
     STYLE = "embedded_graphics::mono_font::mono_text_style::MonoTextStyle"
     dd = prog.method1(STYLE, "draw_decorations", None)
     fi = lambda n: field_index(prog, STYLE, n)
+    # the colour a decoration is drawn with: None -> none, TextColor -> the text colour (if any), Custom(c) -> c
+    ecs = [f for f in prog.fns.values() if f.body and f.name == "effective_color" and "DecorationColor" in f.path and f.kind == "assoc_fn"]
+    if len(ecs) == 1:
+        ec = ecs[0]
+        me_, tc_ = ("param", 1, "self"), ("param", 2, "text_color")
+        table, okt = {}, True
+        try:
+            for sm in Paths(prog).of(ec):
+                vs = [f[2] for f in sm.facts if f[0] == "variant" and strip_refs(f[1]) == me_]
+                if len(vs) != 1 or len(vs[0]) != 1:
+                    okt = False
+                    continue
+                table[vs[0][0]] = sm.ret
+        except Unsupported:
+            okt = False
+        good = okt and set(table) == {"None", "TextColor", "Custom"} and table["None"][0] == "agg" and str(table["None"][1]).endswith("Option::None") \
+            and strip_refs(table["TextColor"]) == tc_ and table["Custom"][0] == "agg" and str(table["Custom"][1]).endswith("Option::Some") \
+            and any(strip_refs(n) == me_ for n in walk(table["Custom"])) and not any(strip_refs(n) == tc_ for n in walk(table["Custom"]))
+        rep.check(good, "R14.2", "effective_color", "DecorationColor::effective_color must map None -> None, TextColor -> the text colour, Custom(c) -> Some(c); found %s" % {k: show(v, maxd=3) for k, v in table.items()}, at=ec.span, fn=ec.path)
+    else:
+        rep.check(False, "R14.2", "effective_color", "anchor lost: DecorationColor::effective_color (%d found)" % len(ecs), status="undecided")
     ff = lambda n: field_index(prog, MONOFONT, n)
     selff = lambda i: ("field", ("param", 1, "self"), i)
     font = selff(fi("font"))
